@@ -2,4 +2,4 @@ CONSTANTS
   OpenFx = {}
 INIT Init
 NEXT Next
-INVARIANTS TwoStepIsUnion Emit
+INVARIANTS TwoStepIsUnion DeepLaw Emit
